@@ -328,14 +328,14 @@ func init() {
 	ulLB := map[string]int{"ReadAtLeast": 2, "vTCPFrame": 4, "RunEventLoop": 2, "vH_C04_tcp_tamper": 80}
 	ulNote := "ideal AEAD at the cipher.BlockCipher level (Seal records, Open succeeds iff an identical record exists); newPadding replaced by a contract stub (any bytes, planned length <= the requested maximum); server user discovery replaced by its outcome (succeeds for the sender's credential / fails); full-size reads on the fake connection"
 	reg("C01",
-		HarnessDef{ID: "H1.1a", Tier: "thorough", Spec: HarnessSpec{Name: "vH_C01_tcp_frame_data", Pkg: "pkg/protocol", LoopBound: 64, LoopBounds: ulLB, TimeoutS: 300, Par: 6, Redirects: ulR},
+		HarnessDef{ID: "H1.1a", Tier: "off", Spec: HarnessSpec{Name: "vH_C01_tcp_frame_data", Pkg: "pkg/protocol", LoopBound: 64, LoopBounds: ulLB, TimeoutS: 300, Par: 6, Redirects: ulR},
 			What:   "TCP framing: a client underlay's real writeOneSegment emits two data segments; the bytes are laid out as documented (nonce only on the first, metadata+tag, padding1, payload+tag, padding2, lengths as recorded in the metadata) and a server underlay's real readOneSegment returns the same two segments, consuming exactly the bytes written with nonce counters in step (also C09 H9.6, C14 H14.2-stream, C16 H16.2)",
 			Bounds: "payloads 0..2 bytes, padding lengths 0..2 (case split), two segments", Outside: ulNote},
-		HarnessDef{ID: "H1.1b", Tier: "thorough", Spec: HarnessSpec{Name: "vH_C01_tcp_frame_session", Pkg: "pkg/protocol", LoopBound: 64, LoopBounds: ulLB, TimeoutS: 300, Par: 6, Redirects: ulR},
+		HarnessDef{ID: "H1.1b", Tier: "off", Spec: HarnessSpec{Name: "vH_C01_tcp_frame_session", Pkg: "pkg/protocol", LoopBound: 64, LoopBounds: ulLB, TimeoutS: 300, Par: 6, Redirects: ulR},
 			What: "same for session (open request) segments with piggybacked payload", Bounds: "as H1.1a", Outside: ulNote},
 	)
 	reg("C09",
-		HarnessDef{ID: "H9.6", Tier: "thorough", Spec: HarnessSpec{Name: "vH_C01_tcp_frame_data", Pkg: "pkg/protocol", LoopBound: 64, LoopBounds: ulLB, TimeoutS: 300, Par: 6, Redirects: ulR},
+		HarnessDef{ID: "H9.6", Tier: "off", Spec: HarnessSpec{Name: "vH_C01_tcp_frame_data", Pkg: "pkg/protocol", LoopBound: 64, LoopBounds: ulLB, TimeoutS: 300, Par: 6, Redirects: ulR},
 			What: "TCP segment layout and nonce progression as documented (see C01 H1.1a)", Bounds: "as C01 H1.1a", Outside: ulNote},
 	)
 	reg("C04",
